@@ -97,6 +97,19 @@ func runC17(e *Env) error {
 				Broken: "theorem C17_propagates (loader causes; implementation-only oracle)", Replay: map[string]any{"kind": "loader", "src": src, "err": fmt.Sprint(res.Err), "out": res.Out}})
 		}
 	}
+	// recorded finding: `<failing expression>.attr is defined` swallows the failure
+	{
+		c := &Case{Templates: map[string]string{"main": "{% import 'lib' as lib %}{{ lib.spyfn().y is defined }}", "lib": "{% macro ok() %}ok{% endmacro %}"},
+			Main: "main", Ctx: map[string]any{}, SpyFunctions: []string{"spyfn"}, FailAt: 0}
+		// implementation only: the model's error values carry no state, so the invocation made before the
+		// swallowed failure is not in its trace (theorem C17_propagates_partial excludes this shape)
+		im := runImpl(c)
+		r.Seen("known:is-defined", true)
+		if im.Class == "" {
+			r.Violate(Violation{Key: "defined-test-swallows-failure", What: fmt.Sprintf("a failing callback inside `x.f().y is defined` is swallowed: Render returns %q with a nil error", im.Out),
+				Broken: "C17_propagates (full strength); see C17_propagates_partial / C17_counterexample_isdefined", Replay: c.replay(im, Outcome{})})
+		}
+	}
 	// fault injection at every spy invocation
 	n := e.N(120, 6000)
 	for i := 0; i < n && !r.Full(); i++ {
